@@ -8,6 +8,7 @@ PROP = "C15"
 LAYER = "serde"
 GEN = os.path.join(ROOT, "coq", LAYER, "Gen")
 PY_VT = "/usr/local/bin/python3-vt"
+SHIPPED = "/repo/schemas"
 KINDS = {"table": ("model", "DTable"), "plan": ("migration", "DPlan"), "config": ("config", "DConfig")}
 RULE = ("the K-serde documents (see C12: tool-written TableDef / MigrationPlan / VespertideConfig documents in struct order and in the "
         "to_value+$schema file form, mutated documents, quirk probes) + schema-guided mutants of tool-written documents that stay valid under "
@@ -57,7 +58,7 @@ def regenerate():
         return None, "vespertide-schema-gen failed: " + out[-2000:]
     shutil.rmtree(GEN, ignore_errors=True)
     os.makedirs(GEN)
-    for stem, d in (("Shipped", "/repo/schemas"), ("Generated", gd)):
+    for stem, d in (("Shipped", SHIPPED), ("Generated", gd)):
         args = ["%s_%s=%s/%s.schema.json" % (stem, x, d, x) for x in ("model", "migration", "config")]
         rc, out, _ = vflib.sh(["python3", os.path.join(ROOT, "tools", "schema2coq.py"), os.path.join(GEN, stem + "Schemas.v")] + args)
         if rc != 0:
@@ -92,7 +93,9 @@ def schema_theorems(chk, known):
     names = ["model", "migration", "config"]
     current = dict(zip(names, cur))
     diff = dict(zip(names, diffs))
-    # then the theorems in the form the known findings call for
+    # then the theorems: the refuted form only where a recorded finding says so AND the schema still differs
+    # (a finding whose schema has been regenerated is merely noted as stale; the positive form is then checked)
+    stale = {x: k for x, k in stale.items() if not current[x]}
     body = tmpl
     for x in names:
         keep, drop = ("STALE", "CURRENT") if x in stale else ("CURRENT", "STALE")
@@ -230,9 +233,9 @@ def run(tier, seed):
             drift.append(x)
     for x in drift:
         rp = vflib.write_replay(PROP, "theorem:shipped_is_current_%s" % x, {
-            "shipped": "/repo/schemas/%s.schema.json" % x, "regenerated_by": "cargo run -p vespertide-schema-gen -- --out <dir>",
+            "shipped": "%s/%s.schema.json" % (SHIPPED, x), "regenerated_by": "cargo run -p vespertide-schema-gen -- --out <dir>",
             "difference (shipped -> regenerated; + added, - removed, ~ changed)": st["diff"][x],
-            "text_diff": text_diff("/repo/schemas/%s.schema.json" % x, os.path.join(gd, "%s.schema.json" % x)),
+            "text_diff": text_diff("%s/%s.schema.json" % (SHIPPED, x), os.path.join(gd, "%s.schema.json" % x)),
             "replay_cmd": "./vf replay %s <this file>" % PROP})
         chk.violation(rp, True)
     for x, okx in st["generated_is_schema_of"].items():
@@ -256,7 +259,7 @@ def run(tier, seed):
     vfile = os.path.join(res["dir"], "verdicts.json")
     nm = 1500 if tier == "thorough" else 250
     p = subprocess.run([PY_VT, os.path.join(ROOT, "tools", "schema_oracle.py"), "--cases", os.path.join(res["dir"], "cases.jsonl"),
-                        "--shipped", "/repo/schemas", "--generated", gd, "--out", vfile, "--parse-bin", binp, "--seed", str(seed), "--mutants", str(nm)],
+                        "--shipped", SHIPPED, "--generated", gd, "--out", vfile, "--parse-bin", binp, "--seed", str(seed), "--mutants", str(nm)],
                        capture_output=True, text=True)
     if p.returncode != 0:
         rp = vflib.write_replay(PROP, "correspondence:schema-oracle", {"log": (p.stdout + p.stderr)[-2000:]})
@@ -371,6 +374,12 @@ def run(tier, seed):
         rp = vflib.write_replay(PROP, "correspondence:K-schema", payload)
         chk.violation(rp, True)
     return chk.finish()
+
+
+def setup():
+    """pre-build the schema generator and the harness (optional accelerator for ./vf setup)"""
+    regenerate()
+    serderun.build()
 
 
 def text_diff(a, b):
